@@ -274,35 +274,81 @@ func kBitValue(d *gen.DRBG, k int) *big.Int {
 var boundaryBits = []int{2, 3, 4, 7, 8, 9, 15, 16, 17, 31, 32, 33, 63, 64, 65, 127, 128,
 	129, 191, 192, 193, 247, 248, 249, 254, 255, 256}
 
+var allBits = func() []int {
+	var r []int
+	for k := 2; k <= 256; k++ {
+		r = append(r, k)
+	}
+	return spread(r, 97)
+}()
+
 func drawBits(t *rapid.T) int {
 	if rapid.Bool().Draw(t, "pbits-boundary") {
 		return rapid.SampledFrom(boundaryBits).Draw(t, "pbits")
 	}
-	return rapid.IntRange(2, 256).Draw(t, "pbits")
+	return rapid.SampledFrom(allBits).Draw(t, "pbits")
+}
+
+// pkindTable is the weighted list of modulus kinds (rapid's IntRange is biased
+// towards small values, SampledFrom over a table is not).
+var pkindTable = weighted(map[string]int{"fixed": 28, "prime-hi": 12, "prime-lo": 10,
+	"prime-rand": 36, "any-odd": 7, "any-even": 7},
+	[]string{"fixed", "prime-hi", "prime-lo", "prime-rand", "any-odd", "any-even"})
+
+func weighted(w map[string]int, order []string) []string {
+	var res []string
+	for _, k := range order {
+		for i := 0; i < w[k]; i++ {
+			res = append(res, k)
+		}
+	}
+	return spread(res, 37)
+}
+
+// spread permutes a table with a stride coprime to its length: rapid prefers
+// small indices, and this way the preferred region holds a representative mix
+// instead of the head of the list.
+func spread[T any](l []T, stride int) []T {
+	n := len(l)
+	for gcd(stride, n) != 1 {
+		stride++
+	}
+	res := make([]T, n)
+	for i := range res {
+		res[i] = l[(i*stride)%n]
+	}
+	return res
+}
+
+func gcd(a, b int) int {
+	for b != 0 {
+		a, b = b, a%b
+	}
+	return a
 }
 
 // drawModulus returns (hex, kind).
 func drawModulus(t *rapid.T) (string, string) {
-	w := rapid.IntRange(0, 99).Draw(t, "pkind")
-	switch {
-	case w < 30:
+	kind := rapid.SampledFrom(pkindTable).Draw(t, "pkind")
+	switch kind {
+	case "fixed":
 		m := rapid.SampledFrom(fixedMods).Draw(t, "pfixed")
 		return m.p.Text(16), "fixed:" + m.name
-	case w < 42:
+	case "prime-hi":
 		k := drawBits(t)
-		return prevPrime(pow2(k)).Text(16), "prime-hi"
-	case w < 52:
+		return prevPrime(pow2(k)).Text(16), kind
+	case "prime-lo":
 		k := drawBits(t)
-		return nextPrime(pow2(k - 1)).Text(16), "prime-lo"
-	case w < 86:
+		return nextPrime(pow2(k - 1)).Text(16), kind
+	case "prime-rand":
 		k := drawBits(t)
 		seed := rapid.Uint64().Draw(t, "pseed")
 		p := nextPrime(kBitValue(gen.NewDRBG(seed, 9), k))
 		if p.BitLen() > k {
 			p = prevPrime(pow2(k))
 		}
-		return p.Text(16), "prime-rand"
-	case w < 93:
+		return p.Text(16), kind
+	case "any-odd":
 		// Any odd modulus >= 3 (mostly composite): outside the "prime
 		// modulus" wording of vole/doc.go, inside "every modulus of at
 		// most 256 bits" of the property.
@@ -310,7 +356,7 @@ func drawModulus(t *rapid.T) (string, string) {
 		seed := rapid.Uint64().Draw(t, "pseed")
 		p := kBitValue(gen.NewDRBG(seed, 9), k)
 		p.SetBit(p, 0, 1)
-		return p.Text(16), "any-odd"
+		return p.Text(16), kind
 	default:
 		k := drawBits(t)
 		if k < 3 {
@@ -357,14 +403,16 @@ var (
 )
 
 func drawLen(t *rapid.T) int {
-	w := rapid.IntRange(0, 9).Draw(t, "mkind")
-	switch {
-	case w < 5:
+	switch rapid.SampledFrom([]string{"b", "b", "b", "b", "b", "s", "s", "u", "u", "u"}).Draw(t, "mkind") {
+	case "b":
 		return rapid.SampledFrom(boundaryLens).Draw(t, "m")
-	case w < 7:
+	case "s":
 		return rapid.IntRange(1, 40).Draw(t, "m")
 	default:
-		return rapid.IntRange(1, 2000).Draw(t, "m")
+		// 1..2000 in two draws so that the upper chunks are not starved
+		// by rapid's bias towards small integers.
+		return 1 + 500*rapid.SampledFrom([]int{0, 1, 2, 3}).Draw(t, "mq") +
+			rapid.IntRange(0, 499).Draw(t, "mr")
 	}
 }
 
